@@ -34,9 +34,9 @@ pub fn gen_c15(seed: u64, thorough: bool) -> Plan {
     let mut g = Gen::new(seed, 15);
     let cells = all_proto_ciphers();
     let (proto, cipher) = cells[(seed as usize) % cells.len()];
-    let transport = TCP_TRANSPORTS[((seed as usize) / cells.len()) % TCP_TRANSPORTS.len()];
+    let transport = ALL_TRANSPORTS[((seed as usize) / cells.len()) % ALL_TRANSPORTS.len()];
     let config = gen_config(&mut g, proto, cipher, transport, 0);
-    let knobs = KnobsPlan::generate(&mut g).for_transport(transport);
+    let knobs = KnobsPlan::generate(&mut g).for_transport(transport).with_dgram_faults(&mut g, transport);
     let n_flows = if g.chance(15) { g.range(8, if thorough { 32 } else { 16 }) } else { g.range(1, 5) } as usize;
     // a link cut applies to every connection through the proxy, so it gets its own runs
     let link_cut = g.chance(15);
@@ -64,7 +64,16 @@ pub fn gen_c15(seed: u64, thorough: bool) -> Plan {
         }
         flows.push(f);
     }
-    let extra = if link_cut {
+    let extra = if link_cut && transport == Transport::Quic {
+        // the datagram link is partitioned from this moment on (both directions): QUIC notices by its idle timeout.
+        // Every flow keeps one more byte for after the cut, so that it is still in progress when the link fails.
+        let at = *g.pick(&[5u64, 50, 400, 1500, 5000]);
+        for f in flows.iter_mut() {
+            f.up.push(Op::Pause(at + 3000));
+            f.up.push(Op::Write(1));
+        }
+        serde_json::json!({ "link_cut": { "quic_at_ms": at } })
+    } else if link_cut {
         serde_json::json!({ "link_cut": { "dir": if g.chance(50) { "c2s" } else { "s2c" }, "offset": g.range(0, 3000) } })
     } else {
         serde_json::Value::Null
@@ -84,16 +93,31 @@ fn kind_of(f: &TcpFlow, link_cut: bool) -> String {
 
 pub fn execute_c15(plan: &Plan) -> Outcome {
     let cut = plan.extra.get("link_cut").filter(|v| v.is_object());
-    let link = cut.map(|c| {
+    let quic_cut_ms = cut.and_then(|c| c.get("quic_at_ms")).and_then(|v| v.as_u64());
+    let mut knobs = plan.knobs.to_knobs();
+    if let Some(ms) = quic_cut_ms {
+        knobs.udp_partition_ns = (ms * 1_000_000, u64::MAX);
+        knobs.udp_fault_ports = vec![SERVER_PORT];
+    }
+    let link = cut.filter(|_| quic_cut_ms.is_none()).map(|c| {
         let s = DirScript { truncate_at: Some(c["offset"].as_u64().unwrap_or(0)), after_truncate: 2, ..Default::default() };
         if c["dir"].as_str() == Some("s2c") { (DirScript::default(), s) } else { (s, DirScript::default()) }
     });
-    let link_cut = link.is_some();
-    let out = rt::run_sim(plan.seed, plan.net_seed, plan.knobs.to_knobs(), || run_tcp_system_via(plan, true, link));
+    let link_cut = link.is_some() || quic_cut_ms.is_some();
+    let out = rt::run_sim(plan.seed, plan.net_seed, knobs, || run_tcp_system_via(plan, true, link));
     let (run, pobs) = &out.result;
+    if std::env::var_os("VERIF_DEBUG_UDP").is_some() {
+        for r in &out.world.udp_sends {
+            eprintln!("UDP t={:.6} n{} {} -> {} len {} fate {}", r.t_ns as f64 / 1e9, r.node, r.from, r.to, r.len, r.fate);
+        }
+    }
     let cell = plan.config.label();
     let mut v: Vec<Violation> = Vec::new();
-    let slack_ns = 10_000_000_000u64 + 8 * (plan.knobs.latency_us + plan.knobs.jitter_us) * 1000;
+    // QUIC tells the peer about an abortive close with one CONNECTION_CLOSE datagram that is not retransmitted - and that
+    // quinn-proto 0.11 does not even send while the congestion window is full of unacknowledged stream data; the peer then
+    // notices at its 30 s idle timeout. That bound is a property of the transport: the end must be seen within it.
+    let quic = plan.config.transport == Transport::Quic;
+    let slack_ns = if quic { 40_000_000_000u64 } else { 10_000_000_000u64 } + 8 * (plan.knobs.latency_us + plan.knobs.jitter_us) * 1000;
     if let Some(e) = &run.startup_err {
         v.push(Violation::new("C15", format!("C15/startup/{cell}"), e.clone()));
     } else {
@@ -129,7 +153,7 @@ pub fn execute_c15(plan: &Plan) -> Outcome {
                 continue;
             }
             if link_cut {
-                let cut_ns = pobs.cut_ns.first().copied();
+                let cut_ns = pobs.cut_ns.first().copied().or(quic_cut_ms.map(|ms| ms * 1_000_000));
                 // the client dials the server right after the local handshake: a flow whose handshake was over a
                 // second before the cut had its connection on the link when it failed
                 let on_link = matches!((cut_ns, o.app.first_write_ns), (Some(c), Some(w)) if w + 1_000_000_000 < c);
